@@ -39,6 +39,7 @@ type World struct {
 	StoredGlobals map[string]bool // globals assigned outside package initialisation
 	Broken        map[string]*Contract // contracts set aside because they no longer fit the current tree
 	BrokenWhy     map[string]string
+	harnessLabels map[string][]string // function key -> labels of its executable ensures clauses (last harness generated)
 }
 
 type SpecFn struct {
